@@ -162,6 +162,10 @@ def run(ctx):
     # ---- R15.2 sibling agreement -------------------------------------------------------------------------------------
     def single(fn):
         b = ctx.body(fn)
+        if fn == 'nla::ntlm::ntowfv2' and b.calls_to('nla::ntlm::ntowfv2_hash'):
+            # the password variant written as "hash the password, then the hash variant": compared after inlining the sibling
+            import inline
+            b = inline.force(P, b, ['nla::ntlm::ntowfv2_hash'])
         r = [resolve(st, strip(st.env.get(0))) for path, st in feasible_paths(b, P) if strip(st.env.get(0))[0] != 'unknown']
         return norm(r[0]) if len(r) >= 1 else None
     a = single('nla::ntlm::ntowfv2')
